@@ -1,14 +1,235 @@
 import Crv.Driver.Util
-/-! Line-protocol driver for stream `kv` (stub: every op is `bad-op` until the model is wired in). -/
-namespace Crv.Driver.Kv
+import Crv.Store
+import Crv.Generated.Mode
+/-!
+Line-protocol driver for stream `kv` (C18, C09, C11): the storage model behind named store handles, one shared
+file-system model, the deserializer oracle as a set of values the real deserializer rejected, and the lookup
+path of the repository (entries → IsRevoked → handshake verdict).
 
-/-- Model state carried between the lines of this stream. -/
+  reset                                  → ok
+  hash <hex> | key <iss> <dec> | dec <dec>   → <hex>          (hashing.Sum64, key string, big.Int.String)
+  new <sid> map | new <sid> ldb <ident> <temporary>           → ok | error
+  bad <kind> <hex>                        → ok                (kind ∈ entry meta ext sig loc: deserializer rejects <hex>)
+  start|ext|sig|loc <sid> <hex> ; ins <sid> <iss> <dec> <hex> → ok | error | panic
+  get <sid> <iss> <dec>                   → revoked <hex> | absent | error
+  meta?|ext?|sig?|loc? <sid>              → some <hex> | none
+  empty? <sid>                            → true | false
+  replace <sid> <other> ; close <sid> ; delete <sid> ; reopen <sid> → ok | error
+  fault <sid> none|io|corrupt|<n>         → ok
+  entry <eid> none | entry <eid> <sid|nil> <loaded>           → ok
+  isrevoked <gateError> <iss> <dec> <eid>*                    → good | revoked | error | panic
+  verify <mode> <ocspOutcome> <gateError> <iss> <dec> <eid>*  → accept | reject | panic
+-/
+namespace Crv.Driver.Kv
+open Crv Crv.Store
+
+structure DEntry where
+  loaded : Bool
+  store : Option String   -- none: CRLStore == nil
+
 structure State where
-  dummy : Unit := ()
+  disk : Disk := Disk.empty
+  maps : List (String × MapStore) := []
+  ldbs : List (String × Ldb) := []
+  idents : List String := []
+  bad : List (Kind × Val) := []
+  entries : List (String × Option DEntry) := []
 
 def init : State := {}
 
-/-- One line (already split into words, stream tag removed) → new state and the answer line. -/
-def step (s : State) (ws : List String) : State × String := (s, "bad-op")
+def lookupS {α : Type} (l : List (String × α)) (k : String) : Option α :=
+  match l with
+  | [] => none
+  | (k', v) :: r => if k' = k then some v else lookupS r k
+
+def setS {α : Type} (l : List (String × α)) (k : String) (v : α) : List (String × α) :=
+  (k, v) :: l.filter (fun p => p.1 ≠ k)
+
+def State.dec (s : State) : Kind → Val → Bool := fun k v => !(s.bad.contains (k, v))
+
+def identOf (s : State) (name : String) : State × Nat :=
+  match s.idents.idxOf? name with
+  | some n => (s, n)
+  | none => ({ s with idents := s.idents ++ [name] }, s.idents.length)
+
+def parseKind : String → Option Kind
+  | "entry" => some .entry | "meta" => some .minfo | "ext" => some .ext | "sig" => some .sig | "loc" => some .loc
+  | _ => none
+
+def wres : WRes → String
+  | .ok => "ok" | .error => "error" | .panic => "panic"
+
+def lookupStr : Lookup → String
+  | .revoked v => "revoked " ++ toHex v
+  | .absent => "absent"
+  | .error => "error"
+
+def slotStr : Option Val → String
+  | some v => "some " ++ toHex v
+  | none => "none"
+
+def put (s : State) (sid : String) (k : AKey) (v : Val) : State × String :=
+  match lookupS s.maps sid with
+  | some m =>
+    let (m', r) := m.put k.str v
+    ({ s with maps := setS s.maps sid m' }, wres r)
+  | none =>
+    match lookupS s.ldbs sid with
+    | some h =>
+      let (d', r) := h.put s.disk k.str v
+      ({ s with disk := d' }, wres r)
+    | none => (s, "bad-op")
+
+def slot (s : State) (sid : String) (k : AKey) : String :=
+  match lookupS s.maps sid with
+  | some m => slotStr (m.slot s.dec k)
+  | none =>
+    match lookupS s.ldbs sid with
+    | some h => slotStr (h.slot s.dec s.disk k)
+    | none => "bad-op"
+
+def anyStore (s : State) (sid : String) : Option AnyStore :=
+  match lookupS s.maps sid with
+  | some m => some (.map m)
+  | none => (lookupS s.ldbs sid).map .ldb
+
+/-- Resolves the named entries; `none` if a name is unknown. -/
+def resolve (s : State) : List String → Option (List (Option Entry))
+  | [] => some []
+  | e :: rest =>
+    match lookupS s.entries e, resolve s rest with
+    | some none, some r => some (none :: r)
+    | some (some de), some r =>
+      match de.store with
+      | none => some (some { loaded := de.loaded, store := none } :: r)
+      | some sid =>
+        match anyStore s sid with
+        | some st => some (some { loaded := de.loaded, store := some st } :: r)
+        | none => none
+    | _, _ => none
+
+def chkStr : Chk → String
+  | .notRevoked => "good" | .revoked _ => "revoked" | .error => "error" | .panic => "panic"
+
+def parseFault (w : String) : Option (Option Fault) :=
+  match w with
+  | "none" => some none
+  | "io" => some (some .io)
+  | "corrupt" => some (some .corrupt)
+  | _ => w.toNat?.map (fun n => some (.other n))
+
+def step (s : State) (ws : List String) : State × String :=
+  match ws with
+  | ["reset"] => (init, "ok")
+  | ["hash", h] =>
+    match parseHex h with
+    | some bs => (s, toHex (sum64 bs))
+    | none => (s, "bad-op")
+  | ["key", i, n] =>
+    match parseHex i, n.toInt? with
+    | some bs, some z => (s, toHex (key bs z))
+    | _, _ => (s, "bad-op")
+  | ["dec", n] =>
+    match n.toInt? with
+    | some z => (s, toHex (decimal z))
+    | none => (s, "bad-op")
+  | ["new", sid, "map"] =>
+    ({ s with maps := setS s.maps sid MapStore.new, ldbs := s.ldbs.filter (fun p => p.1 ≠ sid) }, "ok")
+  | ["new", sid, "ldb", ident, temp] =>
+    match parseBool temp with
+    | none => (s, "bad-op")
+    | some t =>
+      let (s1, n) := identOf s ident
+      match Ldb.create s1.disk n t with
+      | (d, some h) => ({ s1 with disk := d, ldbs := setS s1.ldbs sid h, maps := s1.maps.filter (fun p => p.1 ≠ sid) }, "ok")
+      | (d, none) => ({ s1 with disk := d }, "error")
+  | ["bad", k, h] =>
+    match parseKind k, parseHex h with
+    | some k, some v => ({ s with bad := (k, v) :: s.bad }, "ok")
+    | _, _ => (s, "bad-op")
+  | ["start", sid, h] => match parseHex h with | some v => put s sid .minfo v | none => (s, "bad-op")
+  | ["ext", sid, h] => match parseHex h with | some v => put s sid .ext v | none => (s, "bad-op")
+  | ["sig", sid, h] => match parseHex h with | some v => put s sid .sig v | none => (s, "bad-op")
+  | ["loc", sid, h] => match parseHex h with | some v => put s sid .loc v | none => (s, "bad-op")
+  | ["ins", sid, i, n, h] =>
+    match parseHex i, n.toInt?, parseHex h with
+    | some i, some z, some v => put s sid (.ent i z) v
+    | _, _, _ => (s, "bad-op")
+  | ["get", sid, i, n] =>
+    match parseHex i, n.toInt? with
+    | some i, some z =>
+      match anyStore s sid with
+      | some st => (s, lookupStr (st.lookup s.dec s.disk i z))
+      | none => (s, "bad-op")
+    | _, _ => (s, "bad-op")
+  | ["meta?", sid] => (s, slot s sid .minfo)
+  | ["ext?", sid] => (s, slot s sid .ext)
+  | ["sig?", sid] => (s, slot s sid .sig)
+  | ["loc?", sid] => (s, slot s sid .loc)
+  | ["empty?", sid] =>
+    match anyStore s sid with
+    | some (.map m) => (s, toString m.isEmpty)
+    | some (.ldb h) => (s, toString (h.isEmpty s.disk))
+    | none => (s, "bad-op")
+  | ["replace", sid, other] =>
+    match anyStore s sid, anyStore s other with
+    | some (.map m), some (.map o) =>
+      let (m', o', r) := m.update o
+      ({ s with maps := setS (setS s.maps sid m') other o' }, wres r)
+    | some (.ldb h), some (.ldb o) =>
+      let (d, h', o', r) := h.update s.disk o
+      ({ s with disk := d, ldbs := setS (setS s.ldbs sid h') other o' }, wres r)
+    | some _, some _ => (s, "error")   -- "invalid update store type"
+    | _, _ => (s, "bad-op")
+  | ["close", sid] =>
+    match anyStore s sid with
+    | some (.map _) => (s, "ok")
+    | some (.ldb h) =>
+      let (d, h') := h.close s.disk
+      ({ s with disk := d, ldbs := setS s.ldbs sid h' }, "ok")
+    | none => (s, "bad-op")
+  | ["delete", sid] =>
+    match anyStore s sid with
+    | some (.map _) => (s, "ok")
+    | some (.ldb h) =>
+      let (d, r) := h.delete s.disk
+      ({ s with disk := d }, wres r)
+    | none => (s, "bad-op")
+  | ["reopen", sid] =>
+    match lookupS s.ldbs sid with
+    | some h =>
+      let (d1, h1) := h.close s.disk
+      match Ldb.create d1 h.ident false with
+      | (d2, some h2) => ({ s with disk := d2, ldbs := setS s.ldbs sid h2 }, "ok")
+      | (d2, none) => ({ s with disk := d2, ldbs := setS s.ldbs sid h1 }, "error")
+    | none => (s, "bad-op")
+  | ["fault", sid, f] =>
+    match lookupS s.ldbs sid, parseFault f with
+    | some h, some f => ({ s with ldbs := setS s.ldbs sid { h with fault := f } }, "ok")
+    | _, _ => (s, "bad-op")
+  | ["entry", eid, "none"] => ({ s with entries := setS s.entries eid none }, "ok")
+  | ["entry", eid, sid, loaded] =>
+    match parseBool loaded with
+    | some l =>
+      if sid = "nil" then ({ s with entries := setS s.entries eid (some { loaded := l, store := none }) }, "ok")
+      else match anyStore s sid with
+        | some _ => ({ s with entries := setS s.entries eid (some { loaded := l, store := some sid }) }, "ok")
+        | none => (s, "bad-op")
+    | none => (s, "bad-op")
+  | "isrevoked" :: gate :: i :: n :: eids =>
+    match parseBool gate, parseHex i, n.toInt?, resolve s eids with
+    | some g, some i, some z, some es => (s, chkStr (isRevoked s.dec s.disk g es i z))
+    | _, _, _, _ => (s, "bad-op")
+  | "verify" :: mode :: o :: gate :: i :: n :: eids =>
+    let mode? : Option Mode := if mode = "unset" then Generated.parseMode "" else Generated.parseMode mode
+    match mode?, MechOut.ofString? o, parseBool gate, parseHex i, n.toInt?, resolve s eids with
+    | some m, some o, some g, some i, some z, some es =>
+      -- the CRL mechanism is only called when the mode enables it; its outcome is computed lazily by the env
+      match (isRevoked s.dec s.disk g es i z).mech with
+      | some c => (s, (Generated.verifyProg.run m (envOf o c) true).verdict.toString)
+      | none => (s, if Generated.crlEnabled m && !(Generated.ocspEnabled m && o != .good) then "panic"
+                    else (Generated.verifyProg.run m (envOf o .good) true).verdict.toString)
+    | _, _, _, _, _, _ => (s, "bad-op")
+  | _ => (s, "bad-op")
 
 end Crv.Driver.Kv
